@@ -13,3 +13,5 @@ import Verif.Props.C12
 #print axioms Verif.Props.C12.wheel_wait_none_iff
 #print axioms Verif.Props.C12.wheel_wait_ge_min
 #print axioms Verif.Props.C12.wheel_wait_insert_le
+#print axioms Verif.Props.C12.wheel_wait_cancel_ge
+#print axioms Verif.Props.C12.wheel_wait_after_poll_zero_only_on_request
